@@ -26,4 +26,30 @@ def fitsI32 (x : Int) : Prop := -2147483648 ≤ x ∧ x ≤ 2147483647
 /-- the value fits `i64` -/
 def fitsI64 (x : Int) : Prop := -9223372036854775808 ≤ x ∧ x ≤ 9223372036854775807
 
+/-! ### `noise2`: the interpolation on one lattice cell (reals modelled by `Rat`)
+
+`rx0`, `ry0` are the fractional parts of the lattice coordinates, `q‥` the (unit-length) gradient
+vectors of the four cell corners. -/
+
+/-- `s_curve(t) = t * t * (3 - 2 t)` -/
+def sCurve (t : Rat) : Rat := t * t * (3 - 2 * t)
+
+/-- `lerp(t, a, b) = a + t * (b - a)` -/
+def lerp (t a b : Rat) : Rat := a + t * (b - a)
+
+/-- the body of `noise2` after the lattice look-ups -/
+def noiseCell (rx0 ry0 q00x q00y q10x q10y q01x q01y q11x q11y : Rat) : Rat :=
+  let rx1 := rx0 - 1
+  let ry1 := ry0 - 1
+  let sx := sCurve rx0
+  let sy := sCurve ry0
+  let a := lerp sx (rx0 * q00x + ry0 * q00y) (rx1 * q10x + ry0 * q10y)
+  let b := lerp sx (rx0 * q01x + ry1 * q01y) (rx1 * q11x + ry1 * q11y)
+  lerp sy a b
+
+/-- the octave loop of `turbulence` for the fractal-noise sum: `Σ noise_k / 2^k` -/
+def octaveSum (noise : Nat → Rat) : Nat → Rat
+  | 0 => 0
+  | n + 1 => octaveSum noise n + noise n / 2 ^ n
+
 end Resvg.Render
